@@ -2,17 +2,24 @@
 
 P: theorems of coq/theories/Props/C14.v over Fmt/Model.v: a Wadler-style document language with the SET of admissible
    renderings (every flat/broken choice per group, the `pretty` crate's next-command indentation rule; its width algorithm is
-   not modelled), the document builder `doc_of` for the expression/statement fragment (literal transcription of cst_print.rs)
-   and the parser's line-break rule (a line break matters only directly before a postfix `(` `[` `.`).
+   not modelled), the document builder `doc_of` for the WHOLE syntax (literal transcription of cst_print.rs arm by arm:
+   expressions, statements, match, type declarations, use / mod / pub, stage directives, macro definitions and calls, quote /
+   splice, include, record update, default parameters, all type forms) and the parser's line-break rule (a line break matters
+   only directly before a postfix `(` `[` `.` after an expression, and before the comma after a match arm).
 C: the extracted model (ocaml/fmt_drv.ml) is run on the REAL green tree (dumped by harness/lang/src/bin/fmt_run.rs) of every
-   program of the fragment; the REAL output of mimium_fmt::pretty_print_cst at every width/indent must be one of the model's
+   valid program; the REAL output of mimium_fmt::pretty_print_cst at every width/indent must be one of the model's
    admissible renderings (sound membership test); the hypotheses of the theorems are evaluated per program (emits_all,
-   safe_breaks, same document after re-parsing) and the parser's line-break rule is tested on the real parser (re-layout).
+   safe_breaks, keeps_breaks = the document forces exactly the line breaks of the source at the sensitive positions, same
+   document after re-parsing) and the parser's line-break rule is tested on the real parser (re-layout; and: keeps_breaks +
+   emits_all + admitted output must imply an unchanged parse).
 S: the three facts of the property are evaluated directly on the implementation for every source x width x indent:
    (i) output parses without errors to the same AST (parse_program dump and parse_to_expr dump, spans ignored),
    (ii) same comment sequence, (iii) fmt(output) == output,
    (iv) same syntax-token sequence modulo line breaks / `;` (both LineBreak trivia) and trailing commas.
    A failing valid program outside every class predicate of KNOWN_FINDINGS.txt is a VIOLATION (shrunk replay).
+   Sources: two generators (expression/statement fragment; the rest of the syntax, XGen) with random layout, numbered line
+   and block comments (block comments also spanning several lines, in nested positions), all shipped .mmm files, layout /
+   comment mutations of them; measured frequency of every construct in coverage["construct:*"].
 """
 import concurrent.futures, glob, json, os, re, subprocess, sys, time
 from vplib import *
@@ -274,6 +281,7 @@ class FGen:
         self.r = rng
         self.risky = risky      # also generate the constructs of the known finding classes
         self.out = []
+        self.first_in_block = False
 
     def t(self, s, *flags):
         self.out.append((s, set(flags)))
@@ -311,8 +319,11 @@ class FGen:
             self.args(d, post=True)
             if self.r.chance(1, 8):
                 self.args(d, post=True)
-        elif r == 6:       # tuple
-            self.args(d, 2, 4)
+        elif r == 6:       # tuple (one element: the comma makes it a tuple)
+            if self.r.chance(1, 6):
+                self.t("("); self.expr(d - 1); self.t(","); self.t(")")
+            else:
+                self.args(d, 2, 4)
         elif r == 7:       # array
             self.args(d, 0, 4, "[", "]")
         elif r == 8:       # paren
@@ -414,7 +425,10 @@ class FGen:
         elif r < 4:
             self.t("let")
             if self.r.chance(1, 5):
-                self.t("("); self.t(self.name()); self.t(","); self.t(self.name()); self.t(")")
+                self.t("("); self.t(self.name()); self.t(",")
+                if self.r.chance(3, 4):     # else the one-element tuple pattern `(a,)`
+                    self.t(self.name())
+                self.t(")")
             elif self.r.chance(1, 8):
                 self.t("_")
             else:
@@ -423,7 +437,7 @@ class FGen:
                     self.t(":"); self.t("float")
             self.t("=")
             self.expr(d)
-        elif r < 6:
+        elif r < 6 and not self.first_in_block:      # `{ x = ..` would be read as a record
             self.t(self.name()); self.t("="); self.expr(d)
         else:
             self.expr(d)
@@ -433,7 +447,9 @@ class FGen:
         self.t("{")
         n = self.r.range(0 if self.risky else 1, 3)
         for i in range(n):
+            self.first_in_block = i == 0
             self.stmt(max(d, 0), i == n - 1)
+        self.first_in_block = False
         self.t("}")
 
     def program(self):
@@ -463,20 +479,385 @@ class FGen:
         return self.out
 
 
+# ------------------------------------------------------------------------------------------------
+# generator of the REST of the syntax (match, type declarations, use / mod / pub, stage directives, macro definitions and
+# calls, quote / splice, include, strings with backslashes / line breaks, record update and incomplete records, default
+# parameters, union / record / array / code / function types, lambda return types, placeholders)
+# ------------------------------------------------------------------------------------------------
+CTORS = ["A", "B", "Nil", "Cons", "Leaf", "Node2", "Some", "None_"]
+MODS = ["m", "osc", "util", "fx"]
+TNAMES = ["T", "Shape", "L", "Freq", "Pair"]
+STRS = ['"x\\\\y"', '"// not comment"', '"/* neither */"', '"tab\\there"', '"q\\n"', '"plain"', '""', '"two\nlines"', '"semi;colon"', '"it\'s"']
+
+
+class XGen(FGen):
+    """FGen + the rest of the syntax.  `ext` = set of enabled extension features:
+       match type use mod pub stage macrodef include quote macrocall path record default string lamret placeholder"""
+
+    def __init__(self, rng, risky=False, ext=None):
+        super().__init__(rng, risky)
+        self.ext = set(ext or [])
+        self.stage_macro = False
+
+    def on(self, f, num=1, den=1):
+        return f in self.ext and self.r.chance(num, den)
+
+    # ---- types -------------------------------------------------------------------------------
+    def type_(self, d, union_ok=False):
+        r = self.r.below(12 if d > 0 else 4)
+        if r < 3:
+            self.t(self.r.choice(["float", "int", "string"]))
+        elif r == 3:
+            self.t(self.r.choice(TNAMES))
+            if self.r.chance(1, 4):
+                self.t("::"); self.t(self.r.choice(TNAMES))
+        elif r == 4:        # tuple type; `(T,)` is the one-element tuple type, `(T)` a parenthesised type
+            self.t("(")
+            n = self.r.range(1, 3)
+            for i in range(n):
+                if i: self.t(",")
+                self.type_(d - 1)
+            if n == 1 or (self.risky and self.r.chance(1, 8)): self.t(",")
+            self.t(")")
+        elif r == 5:        # record type
+            self.t("{")
+            n = self.r.range(1, 3)
+            for i in range(n):
+                if i: self.t(",")
+                self.t(self.name()); self.t(":"); self.type_(d - 1)
+            self.t("}")
+        elif r == 6:        # function type
+            self.t("(")
+            n = self.r.range(0, 2)
+            for i in range(n):
+                if i: self.t(",")
+                self.type_(d - 1)
+            self.t(")"); self.t("->"); self.type_(d - 1)
+        elif r == 7:        # array type
+            self.t("["); self.type_(d - 1); self.t("]")
+        elif r == 8:        # code type
+            self.t("`"); self.type_(d - 1)
+        elif r == 9:        # parenthesised type / unit
+            self.t("(")
+            if self.r.chance(1, 2):
+                self.type_(d - 1)
+            self.t(")")
+        elif r == 10 and union_ok:
+            self.t(self.r.choice(["float", "int", "string"]))
+            for _ in range(self.r.range(1, 2)):
+                self.t("|"); self.t(self.r.choice(["float", "int", "string", "(float, float)"][:3]))
+        else:
+            self.t("float")
+
+    # ---- patterns of match -------------------------------------------------------------------
+    def mpattern(self, d, top=True):
+        r = self.r.below(10)
+        if r < 3:
+            self.t(str(self.r.below(10)))
+        elif r == 3:
+            self.t(f"{self.r.below(10)}.{self.r.below(10)}")
+        elif r == 4:
+            self.t("_")
+        elif r < 8:
+            self.t(self.r.choice(CTORS + ["float", "string", "int"]))
+            k = self.r.below(5)
+            if k == 0:
+                pass
+            elif k == 1:
+                self.t("("); self.t(self.name()); self.t(")")
+            elif k == 2:
+                self.t("("); self.t("_"); self.t(")")
+            elif k == 3:      # Name(a, b): tuple pattern
+                self.t("("); self.t(self.name()); self.t(","); self.t(self.name())
+                if self.r.chance(1, 4):
+                    self.t(","); self.t("_")
+                self.t(")")
+            else:             # Name((a, b))
+                self.t("("); self.t("("); self.t(self.name()); self.t(","); self.t(self.name()); self.t(")"); self.t(")")
+        else:
+            if d > 0 and (top is False or "matchparen" in self.ext):
+                self.t("(")
+                n = self.r.range(1, 3)
+                for i in range(n):
+                    if i: self.t(",")
+                    self.mpattern(d - 1, False)
+                if n == 1 and self.r.chance(1, 2): self.t(",")
+                self.t(")")
+            else:
+                self.t("_")
+
+    def match_(self, d):
+        self.t("match")
+        k = self.r.below(4)
+        if k == 0:
+            self.t("("); self.expr(d - 1); self.t(")")
+        elif k == 1:
+            self.t(self.name())
+        elif k == 2:
+            self.args(d, 2, 3)
+        else:
+            self.nonopen(d - 1)
+        self.t("{")
+        n = self.r.range(1, 4)
+        for i in range(n):
+            first = len(self.out)
+            self.mpattern(1)
+            self.t("=>")
+            if self.r.chance(1, 3):
+                self.block(d - 1)
+            else:
+                self.expr(d - 1)
+            if i + 1 < n or self.r.chance(1, 3):
+                # separator: comma (line breaks may follow it, none may precede it) or a line break
+                if self.r.chance(1, 2):
+                    self.t(",", "nonl")
+                else:
+                    self.t("\n", "sep")
+        self.t("}")
+
+    # ---- new primaries -----------------------------------------------------------------------
+    def xprimary(self, d):
+        """returns True when it produced something"""
+        r = self.r.below(12)
+        if r == 0 and self.on("match") and d > 0:
+            self.match_(d); return True
+        if r == 1 and self.on("quote") and d > 0:
+            self.t("`")
+            if self.r.chance(1, 2): self.block(d - 1)
+            else: self.primary(d - 1)
+            return True
+        if r == 2 and self.on("quote"):
+            self.t("$"); self.t(self.name())
+            if self.r.chance(1, 3): self.args(d, post=True)
+            return True
+        if r == 3 and self.on("macrocall"):
+            if self.on("path", 1, 3):
+                self.t(self.r.choice(MODS)); self.t("::")
+            self.t(self.r.choice(FNAMES)); self.t("!"); self.args(d, 0, 3)
+            return True
+        if r == 4 and self.on("path"):
+            self.t(self.r.choice(MODS)); self.t("::")
+            if self.r.chance(1, 3):
+                self.t(self.r.choice(MODS)); self.t("::")
+            self.t(self.r.choice(FNAMES))
+            if self.r.chance(2, 3): self.args(d, post=True)
+            return True
+        if r == 5 and self.on("record") and d > 0:
+            k = self.r.below(5)
+            self.t("{")
+            if k == 0:      # update
+                self.t(self.name()); self.t("<-")
+                n = self.r.range(1, 3)
+                for i in range(n):
+                    if i: self.t(",")
+                    self.t(self.name()); self.t("="); self.expr(d - 1)
+                if self.risky and self.r.chance(1, 6): self.t(",")
+            elif k == 1:    # incomplete
+                n = self.r.range(0, 2)
+                for i in range(n):
+                    self.t(self.name()); self.t("="); self.expr(d - 1); self.t(",")
+                self.t("..")
+            else:
+                n = self.r.range(1, 4)
+                for i in range(n):
+                    if i: self.t(",")
+                    self.t(self.name()); self.t("="); self.expr(d - 1)
+                if self.risky and self.r.chance(1, 6): self.t(",")
+            self.t("}")
+            return True
+        if r == 6 and self.on("string"):
+            self.t(self.r.choice(STRS)); return True
+        if r == 7 and self.on("placeholder"):
+            self.t(self.r.choice(FNAMES)); self.t("(", "post")
+            n = self.r.range(1, 3)
+            ph = self.r.below(n)
+            for i in range(n):
+                if i: self.t(",")
+                if i == ph: self.t("_")
+                else: self.expr(d - 1)
+            self.t(")")
+            return True
+        if r == 8 and self.on("lamret") and d > 0:
+            self.t("|")
+            n = self.r.range(0 if self.risky else 1, 3)
+            for i in range(n):
+                if i: self.t(",")
+                self.t(self.name())
+                if self.r.chance(1, 2):
+                    self.t(":"); self.type_(1)
+            self.t("|")
+            if self.r.chance(2, 3):
+                self.t("->"); self.type_(1, union_ok="lamunion" in self.ext)
+            if self.r.chance(1, 2):
+                self.block(d - 1)
+            else:
+                self.expr(d - 1, in_lambda=True)
+            return True
+        return False
+
+    def primary(self, d):
+        if self.ext and self.r.chance(1, 4) and self.xprimary(d):
+            return
+        super().primary(d)
+
+    # ---- statements --------------------------------------------------------------------------
+    def stmt(self, d, last):
+        if self.ext and self.r.chance(1, 6):
+            r = self.r.below(3)
+            if r == 0 and self.on("record"):
+                self.t("let"); self.t("{")
+                n = self.r.range(1, 3)
+                for i in range(n):
+                    if i: self.t(",")
+                    self.t(self.name()); self.t("="); self.t(self.name())
+                self.t("}"); self.t("="); self.expr(d); self.t("\n", "sep"); return
+            if r == 1 and self.on("lamret"):
+                self.t("let"); self.t(self.name()); self.t(":"); self.type_(2); self.t("="); self.expr(d); self.t("\n", "sep"); return
+        super().stmt(d, last)
+
+    def params(self):
+        self.t("(")
+        k = self.r.below(4)
+        for j in range(k):
+            if j: self.t(",")
+            self.t(self.name())
+            if self.r.chance(1, 3):
+                self.t(":"); self.type_(1, union_ok=True) if self.on("lamret") else self.t("float")
+            if self.on("default", 1, 3):
+                self.t("="); self.expr(1)
+        if k and self.risky and self.r.chance(1, 8): self.t(",")
+        self.t(")")
+
+    def fndecl(self, i, kw="fn"):
+        self.t(kw); self.t(self.r.choice(FNAMES) + str(i))
+        self.params()
+        if self.r.chance(1, 4):
+            self.t("->")
+            if self.on("lamret"): self.type_(2)
+            else: self.t(self.r.choice(["float", "(float,float)", "(float)->float"]))
+        self.block(self.r.range(1, 3))
+        self.t("\n", "sep")
+
+    def typedecl(self):
+        self.t("type")
+        k = self.r.below(4)
+        if k == 0:
+            self.t("alias"); self.t(self.r.choice(TNAMES)); self.t("="); self.type_(2, union_ok=True)
+        else:
+            if k == 1: self.t("rec")
+            self.t(self.r.choice(TNAMES)); self.t("=")
+            n = self.r.range(1, 4)
+            for i in range(n):
+                if i: self.t("|")
+                self.t(self.r.choice(CTORS))
+                if self.r.chance(1, 2):
+                    self.t("(")
+                    m = self.r.range(1, 3)
+                    for j in range(m):
+                        if j: self.t(",")
+                        self.type_(1)
+                    self.t(")")
+        self.t("\n", "sep")
+
+    def use_(self):
+        self.t("use"); self.t(self.r.choice(MODS))
+        for _ in range(self.r.below(2)):
+            self.t("::"); self.t(self.r.choice(MODS))
+        k = self.r.below(4)
+        self.t("::")
+        if k == 0:
+            self.t("*")
+        elif k == 1:
+            self.t("{")
+            n = self.r.range(0, 3)
+            for i in range(n):
+                if i: self.t(",")
+                self.t(self.r.choice(FNAMES))
+            self.t("}")
+        else:
+            self.t(self.r.choice(FNAMES))
+        self.t("\n", "sep")
+
+    def mod_(self, d):
+        self.t("mod"); self.t(self.r.choice(MODS))
+        if self.r.chance(1, 6):
+            self.t("\n", "sep"); return        # external module: `mod m` + line break / `;`
+        self.t("{")
+        for i in range(self.r.range(0, 3)):
+            self.toplevel(i + 10 * d, d - 1)
+        self.t("}")
+        self.t("\n", "sep")
+
+    def toplevel(self, i, d=1):
+        r = self.r.below(14)
+        pub = self.on("pub", 1, 3)
+        if r == 0 and self.on("type"):
+            if pub: self.t("pub")
+            self.typedecl()
+        elif r == 1 and self.on("use"):
+            if pub: self.t("pub")
+            self.use_()
+        elif r == 2 and self.on("mod") and d > 0:
+            if pub: self.t("pub")
+            self.mod_(d)
+        elif r == 3 and self.on("stage"):
+            self.t("#"); self.t("stage"); self.t("("); self.t(self.r.choice(["main", "macro"])); self.t(")"); self.t("\n", "sep")
+        elif r == 4 and self.on("macrodef"):
+            self.fndecl(i, "macro")
+        elif r == 5 and self.on("include"):
+            self.t("include"); self.t("("); self.t('"lib%d.mmm"' % self.r.below(3)); self.t(")"); self.t("\n", "sep")
+        elif r < 11:
+            if pub: self.t("pub")
+            self.fndecl(i)
+        else:
+            self.stmt(self.r.range(1, 3), False)
+
+    def program(self):
+        n = self.r.range(1, 4)
+        for i in range(n):
+            self.toplevel(i)
+        return self.out
+
+
 def wordish(s):
     return bool(s) and (s[-1].isalnum() or s[-1] in '_"')
 
 
-def layout(rng, toks, comments=True, risky=False):
+def must_space(pt, s):
+    """two adjacent tokens that would lex differently when glued"""
+    a, b = pt[-1:], s[:1]
+    if wordish(pt) and (b.isalnum() or b in '_"'):
+        return True
+    if pt in BINOPS and s in ("-", "+"):
+        return True
+    pairs = {("-", "-"), ("-", ">"), ("|", "|"), ("|", ">"), ("/", "/"), ("/", "*"), ("<", "-"), ("<", "="), (">", "="),
+             ("=", "="), ("=", ">"), ("!", "="), ("&", "&"), (":", ":"), (".", "."), ("*", "/")}
+    if (a, b) in pairs:
+        return True
+    if a.isdigit() and b == ".":
+        return True
+    if a == "." and b.isdigit():
+        return True
+    return False
+
+
+def layout(rng, toks, comments=True, risky=False, multiline=True):
     """random layout of a token list: spaces, redundant blank lines, line breaks inside brackets / after operators,
-    `;` separators, line and block comments (numbered, so that their order is observable)"""
+    `;` separators, line and block comments (numbered, so that their order is observable); block comments may span
+    several lines.  flags: 'sep' statement separator, 'post' postfix opener (no line break before it),
+    'nonl' no line break before it (the comma after a match arm)"""
     out = []
     cn = [0]
-    depth = 0
 
     def comment(kind):
         cn[0] += 1
-        return f"/* c{cn[0]} */" if kind == 'B' else f"// c{cn[0]}"
+        if kind == 'L':
+            return f"// c{cn[0]}"
+        if multiline and rng.chance(1, 4):
+            k = rng.below(3)
+            body = ["\n   more", "\n\n * x\n", "\n\t  deep\n      deeper "][k]
+            return f"/* c{cn[0]}{body}*/"
+        return f"/* c{cn[0]} */"
     prev = None
     for i, (s, fl) in enumerate(toks):
         if "sep" in fl:
@@ -484,17 +865,16 @@ def layout(rng, toks, comments=True, risky=False):
             sep = "\n" if r < 3 else ("\n\n" if r == 3 else (";" if r == 4 else " \n   "))
             if comments and rng.chance(1, 6):
                 sep = " " + comment('L') + "\n" + (sep if sep != ";" else "")
+            elif comments and rng.chance(1, 12):
+                sep = " " + comment('B') + sep
             out.append(sep)
             prev = None
             continue
         if prev is not None:
             pt = prev[0]
-            must = (wordish(pt) and (s[0].isalnum() or s[0] in '_"')) or (pt in BINOPS and s in ("-", "+")) or \
-                   (pt == "-" and s == "-") or (pt == "|" and s == "|") or (pt[-1:] == "|" and s[:1] in "|>") or \
-                   (pt == "/" and s[:1] in "/*") or (pt[-1:].isdigit() and s == ".") or (pt == "." and s[:1].isdigit()) or \
-                   (pt == "-" and s == ">") or (pt in "<>=!" and s[:1] == "=") or (pt == "&" and s == "&") or (pt == "<" and s == "-")
+            must = must_space(pt, s)
             r = rng.below(20)
-            if "post" in fl:
+            if "post" in fl or "nonl" in fl:
                 gap = "" if r < 16 else " "
                 if comments and rng.chance(1, 30):
                     gap = " " + comment('B') + " "
@@ -506,8 +886,6 @@ def layout(rng, toks, comments=True, risky=False):
                 elif r < 15:
                     gap = "   "
                 elif r < 18:
-                    # a line break where the grammar does not care (not before a postfix opener): after `,` `(` `[` operators
-                    # `=` `{`, before operators, ...
                     gap = "\n" + " " * rng.below(9)
                     if rng.chance(1, 4):
                         gap = "\n" + gap
@@ -535,8 +913,8 @@ def layout(rng, toks, comments=True, risky=False):
     return src
 
 
-def gen_source(rng, risky=False):
-    g = FGen(rng, risky)
+def gen_source(rng, risky=False, ext=None):
+    g = XGen(rng, risky, ext) if ext else FGen(rng, risky)
     toks = g.program()
     return layout(rng, toks, comments=True, risky=risky)
 
@@ -645,6 +1023,8 @@ class Client:
 
 
 def classes_of(ans_in, findings=None):
+    if not CLASSES:
+        return []
     t = parse_cst(ans_in["cst"])
     return [n for n, (p, ex) in CLASSES.items() if (findings is None or n in findings) and p(t, ans_in["toks"])]
 
@@ -774,19 +1154,38 @@ def parse_model_answer(l):
     f = l.split("\t")
     ws = lambda s: [unesc(x) for x in s.split("\x1f")] if s else []
     return {"frag": f[0] == "F1", "admits": f[1] == "A1", "safe": f[2] == "S1", "samedoc": f[3][1:],
-            "dwords": ws(f[4]) if len(f) > 4 else [], "cwords": ws(f[5]) if len(f) > 5 else []}
+            "dwords": ws(f[4]) if len(f) > 4 else [], "cwords": ws(f[5]) if len(f) > 5 else [],
+            "keeps": len(f) > 6 and f[6] == "K1"}
 
 
 # ------------------------------------------------------------------------------------------------
 # re-layout preserving exactly what the parser observes (hypothesis of C14_breaks_safe_same_parse_partial)
 # ------------------------------------------------------------------------------------------------
+NON_EXPR_KEYWORDS = {"fn", "macro", "let", "letrec", "if", "else", "match", "include", "stage", "main", "mod", "use", "pub", "type",
+                     "alias", "rec", "float", "int", "string", "struct"}      # Fmt.Model.non_expr_keywords
+
+
 def m_ends_expr(p):
     c = p[-1:]
-    return bool(c) and (c.isalnum() or c in '_")]}' or ord(c) >= 128)
+    return p not in NON_EXPR_KEYWORDS and bool(c) and (c.isalnum() or c in '_")]}' or ord(c) >= 128)
 
 
-def m_sensitive(p, w):
-    return m_ends_expr(p) and w in ("(", "[", ".")
+def m_sensitive(st, p, w):
+    """Fmt.Model.sensitive: a line break between p and w can change the parse (postfix openers after an expression; the
+    comma after a match arm = a comma at the depth of a `{` that was written directly after the end of an expression).
+    st = [p is the name of a function / macro declaration, bracket stack]"""
+    return not st[0] and m_ends_expr(p) and (w in ("(", "[", ".") or (w == "," and bool(st[1]) and st[1][-1]))
+
+
+def m_ctx_step(st, p, w):
+    """Fmt.Model.ctx_step (the stack grows at the end)"""
+    can_end = p is not None and not st[0] and m_ends_expr(p)
+    st[0] = p in ("fn", "macro")
+    if w in ("(", "[", "{"):
+        st[1].append(w == "{" and can_end)
+    elif w in (")", "]", "}"):
+        if st[1]:
+            st[1].pop()
 
 
 def relayout(rng, toks):
@@ -797,6 +1196,7 @@ def relayout(rng, toks):
     pend_nl = False      # a line break seen since the previous syntax token
     after_line_comment = False
     first = True
+    st = [False, []]     # context (Fmt.Model.ctx)
     for t in toks:
         if t == "N":
             pend_nl = True
@@ -811,13 +1211,14 @@ def relayout(rng, toks):
             continue
         w = t[1:].split("\x1f", 1)[1]
         if not first:
-            if prev is not None and m_sensitive(prev, w):
+            sens = prev is not None and m_sensitive(st, prev, w)
+            if sens:
                 nlb = pend_nl
             else:
                 nlb = rng.chance(1, 3)
             if after_line_comment:
                 # the line break that ends the comment is there anyway; it counts for the parser
-                if prev is not None and m_sensitive(prev, w) and not pend_nl:
+                if sens and not pend_nl:
                     return None      # cannot be represented (does not occur: a line comment is followed by a LineBreak token)
                 gap = "\n" + " " * rng.below(4)
             elif nlb:
@@ -826,6 +1227,7 @@ def relayout(rng, toks):
                 gap = " " * rng.range(1, 2)
             out.append(gap)
         out.append(w)
+        m_ctx_step(st, prev, w)
         prev = w
         pend_nl = False
         after_line_comment = False
@@ -840,8 +1242,18 @@ def relayout(rng, toks):
 WITNESSES = [
 ]
 
-# witnesses of the repaired printer defects (F6 F6t FM1..FM9): every fact must hold on them now
+# the features of XGen
+EXT_ALL = set("lamunion match matchparen type use mod pub stage macrodef include quote macrocall path record default string "
+              "lamret placeholder".split())
+
+# witnesses of the repaired printer defects (F6 F6t FM1..FM14): every fact must hold on them now
 REPAIRED = [
+    "macro m(x){ x }\n",                                              # FM11 `macrom(x)`
+    "mod m { use a::b\n use c::d }\nmod k { x\n (a) }\n",              # FM12 `mod m {use a::buse c::d}` `mod k {x(a)}`
+    "mod m { let x = 1\n fn f(){ x }\n // c\n }\npub mod n { }\nmod o;\nfn dsp(){ 1 }\n",
+    "fn dsp(){ match p {\n 0 => f\n (1, 2) => 2.0 } }\n",             # FM13 `0 => f (1, 2) => 2.0`
+    "fn dsp(){ match p {\n (0, 1) => f, (1, 2) => 2.0\n (3, _) => g } }\n",
+    "let f = |x|->float|string x\n",                                  # FM14 `float|stringx`
     "fn dsp(){ let x = 1\n match x { 0 => 1.0, _ => 2.0 } }\n",
     "type T = A | B(float)\nfn dsp(){ 1.0 }\n",
     "type alias Freq = float\ntype rec L = Nil | Cons(float, L)\nfn dsp(){ 1.0 }\n",
@@ -865,6 +1277,31 @@ REPAIRED = [
     "(|x, y| x + y)",
     "(f([a, b]), c)",
 ]
+
+
+COUNTED_KINDS = {"MatchExpr", "TypeDecl", "UseStmt", "UseTargetMultiple", "UseTargetWildcard", "ModuleDecl", "VisibilityPub",
+                 "StageDecl", "MacroExpansion", "BracketExpr", "EscapeExpr", "IncludeStmt", "ParamDefault", "UnionType", "RecordType",
+                 "FunctionType", "ArrayType", "CodeType", "QualifiedPath", "RecordExpr", "PlaceHolderLiteral", "ConstructorPattern"}
+
+
+def constructs_of(ans_in):
+    """which of the constructs of interest a valid program contains (measured frequency of the generator)"""
+    cst = ans_in.get("cst", "")
+    ks = set(re.findall(r"\((\w+) ", cst)) & COUNTED_KINDS
+    if "(FunctionDecl [Macro " in cst: ks.add("macro-definition")
+    if "[LeftArrow " in cst: ks.add("record-update")
+    if "[DoubleDot " in cst: ks.add("incomplete-record")
+    if "(MatchArm (MatchPattern (TuplePattern" in cst:
+        for x in walk(parse_cst(cst)):
+            if x[0] == 'N' and x[1] == "MatchArmList":
+                for u, v in zip(x[2], x[2][1:]):
+                    ft = first_token(v)
+                    if u[0] == 'N' and ft is not None and ft[1] == "ParenBegin":
+                        ks.add("match-arm-with-paren-after-line-break")
+    toks = ans_in.get("toks", [])
+    if any(t[0] == "B" and "\n" in t for t in toks): ks.add("multi-line-block-comment")
+    if any(t[0] == "T" and t.startswith("TStr\x1f") and ("\\" in t or "\n" in t) for t in toks): ks.add("string-with-backslash-or-line-break")
+    return ks
 
 
 def shipped_sources():
@@ -911,15 +1348,21 @@ def run(ck):
         for c in open(cases, errors="replace", newline="").read().split("\n%%\n"):
             if c.strip():
                 S.append(("corpus", c, None))
-    n_gen = 3000 if quick else 30000
+    n_gen = 2500 if quick else 30000
     n_risky = 500 if quick else 6000
+    n_x = 2500 if quick else 30000
     if ck.replay:          # replaying one input: only the input, the witnesses and the corpus
-        n_gen = n_risky = 0
+        n_gen = n_risky = n_x = 0
     rng = ck.rng.fork("gen")
     for i in range(n_gen):
         S.append(("gen", gen_source(rng.fork("g%d" % i), False), None))
     for i in range(n_risky):
         S.append(("gen-risky", gen_source(rng.fork("r%d" % i), True), None))
+    # the rest of the syntax (every third program also with the risky constructs)
+    ext = EXT_ALL
+    xr = ck.rng.fork("genx")
+    for i in range(n_x):
+        S.append(("gen-x", gen_source(xr.fork("x%d" % i), i % 3 == 0, ext), None))
     # lmmm core programs (well typed), decorated by the layout mutator later
     try:
         import lmmm
@@ -963,6 +1406,8 @@ def run(ck):
     not_admitted = []  # (origin, src, path, w, i)
     idem_mismatch = []
     emits_mismatch = []
+    same_parse_mismatch = []
+    keeps_false_all = []
     rl_bad = []
     tot = {"frag": 0, "adm": 0, "unsafe": 0, "unsafe_outside": 0, "samedoc0_good": 0, "relayout": 0,
            "harness_s": 0.0, "model_s": 0.0}
@@ -995,6 +1440,8 @@ def run(ck):
                 continue
             add("valid_programs")
             add("runs", len(a["runs"]))
+            for k in constructs_of(a["in"]):
+                add("construct:" + k)
             allsy = set()
             for run_ in a["runs"]:
                 allsy |= symptoms(a["in"], run_)
@@ -1044,6 +1491,7 @@ def run(ck):
                 ck.broken.append("model driver: " + str(ex)[:300])
             tot["model_s"] += time.time() - t0
             unsafe_srcs = set()
+            keeps_false = {}
             for (j, run_), o_ in zip(owner, outs or []):
                 m = parse_model_answer(o_)
                 if "err" in m:
@@ -1068,6 +1516,14 @@ def run(ck):
                 add("fragment_runs_emits_all_" + ("true" if ea else "false"))
                 if ea and ({"comments", "tokens"} & sy) and m["admits"] and not classes_of(res[j]["in"], findings):
                     emits_mismatch.append((o, s, p, run_["w"], run_["i"]))
+                add("fragment_runs_emits_all_exact_" + ("true" if m["dwords"] == m["cwords"] else "false"))
+                # hypothesis keeps_breaks of C14_breaks_as_source / C14_same_parse_as_source_partial, decided by the model: the
+                # document forces exactly the line breaks of the source at the sensitive positions
+                add("fragment_runs_keeps_breaks_" + ("true" if m["keeps"] else "false"))
+                if not m["keeps"]:
+                    keeps_false.setdefault(j, (o, s, p))
+                if m["keeps"] and ea and m["admits"] and ({"parse", "ast", "expr"} & sy):
+                    same_parse_mismatch.append((o, s, p, run_["w"], run_["i"]))
                 if m["samedoc"] == "0" and not sy:
                     tot["samedoc0_good"] += 1
                 if m["samedoc"] == "1" and "idem" in sy:
@@ -1080,6 +1536,7 @@ def run(ck):
             for j in unsafe_srcs:
                 if not classes_of(res[j]["in"]):
                     tot["unsafe_outside"] += 1
+            keeps_false_all.extend(keeps_false.values())
 
         # ---- parser line-break rule (hypothesis of C14_breaks_safe_same_parse_partial) on the real parser ----
         rl_reqs, rl_owner = [], []
@@ -1177,6 +1634,16 @@ def run(ck):
         ck.broken.append("correspondence: model document emits every token/comment and admits the output, yet tokens/comments differ")
         ck.violation("the model says every token and comment is emitted and the output is a rendering, but the real token/comment sequence differs",
                      {"src": s, "path": p, "width": w, "indent": i}, no_input=True)
+    ck.coverage["sources_where_keeps_breaks_fails"] = len(keeps_false_all)
+    for (o, s, p) in keeps_false_all[:3]:
+        ck.sample({"keeps_breaks_false": True, "origin": o, "path": p, "source_head": s[:300]}, cap=12)
+    if same_parse_mismatch and not viol:
+        o, s, p, w, i = same_parse_mismatch[0]
+        ck.broken.append("hypothesis of C14_same_parse_as_source_partial: the model says the output has the tokens of the source and "
+                         "the line-break flags of the source at every sensitive position, yet it parses differently")
+        ck.violation("same tokens and same line-break flags at the sensitive positions as the source (by the model), but the real parser "
+                     "gives a different tree for the real output: the parser's line-break rule is not the modelled one",
+                     {"src": s, "path": p, "width": w, "indent": i, "cases": len(same_parse_mismatch)}, no_input=True)
     if rl_bad and not viol:
         o, s, p, t, why = rl_bad[0]
         ck.broken.append("hypothesis of C14_breaks_safe_same_parse_partial (parser looks at line breaks only at sensitive positions)")
@@ -1190,19 +1657,24 @@ def run(ck):
 def finish(ck):
     ck.finish(
         explanation=("Props/C14.v proves, over ALL admissible layouts of a document (every flat/broken choice per group, so every width and "
-                     "indent), that laying out preserves the token and comment sequence, and that layouts cannot differ for the parser when no "
-                     "optional break lies before a postfix opener; idempotence is proved from a re-parse hypothesis. The document builder is a "
-                     "transcription of cst_print.rs for the expression/statement fragment, tied to the code by requiring the REAL output at "
-                     "5 widths x 2 indents to be a member of the model's rendering set (sound membership test). The three facts of the "
-                     "property and token preservation are evaluated directly on the real formatter and parser for generated programs, every "
-                     "shipped .mmm and layout/comment mutations of them; failures are accepted only inside the class predicates of "
-                     "KNOWN_FINDINGS.txt."),
+                     "indent), that laying out preserves the token and comment sequence; that layouts cannot differ for the parser when no "
+                     "optional break lies at a sensitive position (before a postfix opener after an expression, before the comma after a match "
+                     "arm), in which case the flags the parser sees are the ones the document forces; and that, when these are the flags of the "
+                     "source (keeps_breaks, decided per program) and every token and comment is emitted (emits_all, decided per program, proved "
+                     "for the nodes printed by concatenation incl. match and type declarations), every rendering parses like the source for any "
+                     "parser that is a function of tokens and those flags; idempotence is proved from a re-parse hypothesis. The document builder "
+                     "is a transcription of cst_print.rs for the whole syntax, tied to the code by requiring the REAL output at 5 widths x 2 "
+                     "indents to be a member of the model's rendering set (sound membership test). The three facts of the property and token "
+                     "preservation are evaluated directly on the real formatter and parser for generated programs (two generators covering "
+                     "every construct, with line / block / multi-line block comments), every shipped .mmm and layout/comment mutations of "
+                     "them; failures are accepted only inside the class predicates of KNOWN_FINDINGS.txt."),
         trusted_base=["Coq 8.16.1 kernel (coqc, vm_compute; no native_compute)",
                       "extraction: ExtrOcamlBasic + ExtrOcamlString only; OCaml 4.13.1; ocaml/fmt_drv.ml (CST reader, kind tables, trailing-newline wrapper of pretty_print)",
                       "harness/lang/src/bin/fmt_run.rs (AST/CST/token dumps) and the python-side fact oracle + class predicates in checks/C14.py",
                       "the width algorithm of the `pretty` crate is not modelled (only the set it chooses from, incl. its next-command indentation rule)",
-                      "the parser is represented by its line-break rule; that the real parser depends on layout only through it is tested (re-layout), not proved",
-                      "match / type declarations / records / macro expansion / modules / use are outside the modelled fragment (facts checked directly only)"],
+                      "the parser is represented by its line-break rule; that the real parser depends on layout only through it is tested (re-layout, and keeps_breaks => same parse), not proved",
+                      "the sensitive positions are recognised lexically (previous token can end an expression; bracket context for the match-arm comma): an over-approximation that costs applicability of keeps_breaks (~4% of generated layouts), not soundness",
+                      "texts with syntax errors (Error nodes) are outside the model; the file-leading-comment wrapper of pretty_print is replicated in python"],
         rule=("valid = the input parses without CST errors; per source 5 widths x 2 indent sizes; generated programs come from a syntactic "
               "generator of the fragment with random layout and numbered comments (a share deliberately contains the known-class constructs), "
               "shipped = every *.mmm under the repository, mutations = random layout/comment edits at token gaps; distinct_nontrivial = valid programs"))
